@@ -110,3 +110,70 @@ Definition known_stop_second_name (ifs : iftab) (h : list iter) : bool :=
                                               && beq (alias_of (dl_rr d')) (alias_of (dl_rr d))) L) L
     | _ => false
     end) (i_calls it)) h.
+
+(* C05-expiry-hidden-by-expiring-ptr, as a class of histories (round 6): at some call of
+   resolve_updated_instances (after a response, or for the hosts whose addresses were just
+   evicted) an updated instance that is in `resolved` cannot be resolved any more, while a PTR
+   record of a browsed name pointing to it is in its last second - that name's browser is not told
+   (the loop skips PTR records that expire within a second).  Evaluated along the model's run. *)
+Definition hidden_in_resolve (s : st) (now : N) (updated : list bytes) : bool :=
+  existsb (fun tc =>
+    match bm_get (fst tc) (c_ptr (s_cache s)) with
+    | Some b => existsb (fun p => let i := alias_of (e_rr p) in
+                  expires_soon p now && mem i updated && mem i (s_resolved s)
+                  && negb (is_valid (resolve_from_cache (s_cache s) now (fst tc) i))) b
+    | None => false
+    end) (s_q s).
+
+Definition response_hidden (s : st) (now ifx : N) (m : msg) : bool :=
+  let fu := for_us (s_q s) (m_answers m) in
+  let '(c1, _, changes) :=
+    hr_records (s_cache s) now ifx (s_q s) fu (m_answers m ++ m_authorities m ++ m_additionals m) in
+  hidden_in_resolve (with_cache s c1) now (updated_of c1 changes).
+
+Definition read_hidden (ifs : iftab) (s : st) (now : N) (d : dgram) : bool :=
+  match accepted_msg ifs d with Some m => response_hidden s now (d_if d) m | None => false end.
+
+Fixpoint reads_hidden (ifs : iftab) (s : st) (now : N) (ds : list dgram) : bool :=
+  match ds with
+  | [] => false
+  | d :: t => read_hidden ifs s now d || reads_hidden ifs (fst (handle_read ifs s now d)) now t
+  end.
+
+Fixpoint hosts_hidden (s : st) (now : N) (names : list bytes) : bool :=
+  match names with
+  | [] => false
+  | h :: t =>
+    let upd := dedup (get_instances_on_host (s_cache s) h) in
+    hidden_in_resolve s now upd || hosts_hidden (fst (resolve_updated s now upd)) now t
+  end.
+
+Definition evict_hidden (s : st) (now : N) : bool :=
+  let '(c1, _) := evict_services (s_cache s) now in
+  let '(c2, names) := evict_addr c1 now in
+  hosts_hidden (with_cache s c2) now (dedup names).
+
+Definition iter_hidden (ifs : iftab) (s : st) (it : iter) : bool :=
+  let now := i_now it in
+  let dgs := deliveries_in_order (i_dgrams it) in
+  reads_hidden ifs s now dgs
+  || (let s1 := fst (run_cmds (handle_read ifs) s now dgs) in
+      let s2 := fst (run_cmds exec_call s1 now (i_calls it)) in
+      let s3 := fst (run_retrans s2 now) in
+      let c4 := fst (refresh_all (s_cache s3) now (s_q s3)) in
+      evict_hidden (with_cache s3 c4) now).
+
+Fixpoint known_hidden_from (ifs : iftab) (s : st) (h : list iter) : bool :=
+  match h with
+  | [] => false
+  | it :: t => iter_hidden ifs s it || known_hidden_from ifs (fst (iterate ifs s it)) t
+  end.
+
+Definition known_removal_hidden (ifs : iftab) (h : list iter) : bool := known_hidden_from ifs init_st h.
+
+(* the histories outside the known classes that concern the TIMELINESS part of C05 *)
+Definition timely_class (ifs : iftab) (h : list iter) : bool :=
+  safe_class ifs h && fresh_channels h && negb (known_stop_second_name ifs h) && negb (known_removal_hidden ifs h).
+
+Definition is_dead_fail (f : BrowserSpec.fail) : bool :=
+  match f with BrowserSpec.F05_dead _ _ _ _ _ _ => true | _ => false end.
